@@ -53,12 +53,13 @@ TIMEOUTS = {"n": 0, "spent": 0.0}
 TIMEOUT_BUDGET = 25.0        # seconds a whole run may lose in alarms; after that every alarm is 0.25 s
 
 
-def with_timeout(seconds, f):
+def with_timeout(seconds, f, floor=0.25):
     """run f under an alarm.  All alarms of one process share a budget, so that a tree on which many programs
-    stop terminating still finishes in about two minutes."""
+    stop terminating still finishes in a few minutes; once the budget is used up an alarm is `floor` seconds
+    (the alarm whose expiry is reported as a failure keeps a floor that a healthy run does not reach)."""
     import time as _time
     if TIMEOUTS["spent"] >= TIMEOUT_BUDGET:
-        seconds = min(seconds, 0.25)
+        seconds = min(seconds, floor)
     old = signal.signal(signal.SIGALRM, _alarm)
     signal.setitimer(signal.ITIMER_REAL, seconds)
     t0 = _time.time()
@@ -304,6 +305,11 @@ SPECIMENS = [
     ("(a)b", r"y\1"), ("x(a)", r"\1y"), ("(a)(b) ", r" \1\2"), (" (a)", r"\1 "),
 ]
 
+ROTATING_GROUPS = [
+    [("^-(.+)$", r"\1-")], [("^a(.+)$", r"\1a")], [("^ (.+)$", r"\1 ")], [("^(.+)a$", r"a\1")],
+    [("^a(.+)$", r"\1a"), ("^b(.+)$", r"\1b")], [("^(a)(.+)b$", r"\1b\2")], [("^a(.+)$", r"\1a"), ("^(.+)a$", r"a\1")],
+]
+
 # rule sequences for the bounded-exhaustive stream: steps that keep the length but move carried-over characters
 # (equal-length maps merged one after the other), deleting then inserting, and `>y >x >y` module calls
 SPECIMEN_SEQS = [
@@ -322,6 +328,22 @@ def specimen_cases(maxlen, tier):
         rules = [{"pat": p, "tpl": tp} for p, tp in seq]
         yield make_case([{"k": "rule", "id": i} for i in range(len(rules))], rules, [], strings, tok=r"[ \t]+",
                         via="file", kind="specimen")
+    # iterative groups whose passes move carried-over characters while a pass (or the end of a cycle) reproduces
+    # the text: the loop stops, the maps must still say where every character came from
+    for seq in ROTATING_GROUPS:
+        rules = [{"pat": p, "tpl": tp} for p, tp in seq]
+        body = [{"k": "rule", "id": i} for i in range(len(rules))]
+        prog = [{"k": "iter", "n": 1, "ops": body, "def": "before"}]
+        c = make_case(prog, rules, [], [], tok=",", tokline=True, via="file", kind="specimen")
+        keep = []
+        for s in strings + ["---", "-a-", "aaaa", "abab", "baba", "a a a", "  a  "]:
+            try:
+                ref_run(c, c["prog"], s, [])       # rotations with a longer period never stop (in the real code either)
+                keep.append(s)
+            except Diverges:
+                pass
+        c["inputs"] = [cps(s) for s in keep]
+        yield c
     # `>y >x >y`: a module called twice with another one in between, both active / one active
     rules = [{"pat": "a", "tpl": "b"}, {"pat": "b", "tpl": "ab"}, {"pat": "(a)b", "tpl": r"\1"}]
     for act_x, act_y in ((True, True), (False, True), (True, False)):
@@ -692,6 +714,49 @@ def purity_battery(case, r, ctx, obs, active):
             for s in inputs:
                 if res(f, s, sets[0]) != first[(s, tuple(sets[0]))]:
                     fail("argument types: modules=<%s> differs from modules given as a dict" % label, (s,))
+        # (2c) default activations D (constructor `active=`, activate/deactivate) x call-time `active`:
+        # None -> exactly D; anything else -> exactly that set (it REPLACES the defaults, it is not merged)
+        if names:
+            xy = names[:2]
+            subsets = [[]] + [[n] for n in xy] + ([list(xy)] if len(xy) == 2 else [])
+            want = {}
+            for sub in subsets:
+                prog2 = map_nodes(case["prog"], lambda nd, sub=sub: [dict(nd, active=(nd["name"] in sub))]
+                                  if nd["k"] == "ext" and nd["active"] != (nd["name"] in sub) else None)
+                try:
+                    for s in inputs:
+                        ref_run(dict(case, prog=prog2), prog2, s, [])
+                except Diverges:
+                    continue
+                fobj = fresh()
+                for s in inputs:
+                    want[(s, tuple(sub))] = res(fobj, s, list(sub))     # a fresh object, exactly that set
+            for D in subsets:
+                o = fresh(active=list(D))
+                for A in [None] + subsets + [None]:
+                    eff = tuple(D) if A is None else tuple(A)
+                    for s in inputs:
+                        if (s, eff) in want and res(o, s, None if A is None else list(A)) != want[(s, eff)]:
+                            fail("default activations: apply(s, active=%r) on an object built with active=%r is not "
+                                 "the run with exactly %r active" % (A, D, list(eff)), (s,))
+                # activate / deactivate change the defaults only
+                for n in xy:
+                    o.activate(n)
+                full = tuple(xy)
+                for A in [None, [], [xy[0]]]:
+                    eff = full if A is None else tuple(A)
+                    for s in inputs:
+                        if (s, eff) in want and res(o, s, None if A is None else list(A)) != want[(s, eff)]:
+                            fail("default activations: after activate(), apply(s, active=%r) is not the run with exactly "
+                                 "%r active" % (A, list(eff)), (s, D))
+                o.deactivate(xy[0])
+                rest = tuple(xy[1:])
+                for A in [None, [xy[0]]]:
+                    eff = rest if A is None else tuple(A)
+                    for s in inputs:
+                        if (s, eff) in want and res(o, s, None if A is None else list(A)) != want[(s, eff)]:
+                            fail("default activations: after deactivate(), apply(s, active=%r) is not the run with "
+                                 "exactly %r active" % (A, list(eff)), (s, D))
         if names and names in sets and [] in sets:
             for n in names:
                 r.activate(n)
@@ -932,7 +997,7 @@ def observe(case, tmpdir, want_tokens=True, battery=True):
                 with warnings.catch_warnings():
                     warnings.simplefilter("ignore")
                     return list(r.trace(s, active=active, verbose=True))
-            tr = with_timeout(2.0 if case["kind"] == "masked" else 5.0, go)
+            tr = with_timeout(2.0 if case["kind"] == "masked" else 5.0, go, floor=(0.5 if case["kind"] == "masked" else 2.0))
         except Exception as e:      # noqa: BLE001 - mapped to an enum
             obs["runs"].append({"err": err_name(e)})
             continue
@@ -1347,7 +1412,7 @@ def c14_tables():
 class C13(Check):
     pid = "C13"
     driver = "Verif/C13/Driver.lean"
-    quick_cases = 1700
+    quick_cases = 1500
     thorough_cases = 20000
     rule = ("REPP programs from a regex grammar (literals, classes, ? * + {m,n}, anchors, alternation, lookahead, 0-4 "
             "capture groups incl. optional, nested, empty and named) with templates mixing literals, \\N, \\g<N>, "
@@ -1393,6 +1458,7 @@ class C13(Check):
         self.tmp = None
         self._cache = {}
         self._req = {}
+        self.skipped = {}
         self.diverging = 0
 
     def setup(self):
@@ -1403,8 +1469,11 @@ class C13(Check):
             shutil.rmtree(self.tmp, ignore_errors=True)
             self.tmp = None
 
+    def note_skip(self, why):
+        self.skipped[why] = self.skipped.get(why, 0) + 1
+
     def extra_evidence(self):
-        return {"diverging_skipped": self.diverging, "regex_module": "stdlib re",
+        return {"diverging_skipped": self.diverging, "regex_module": "stdlib re", "not_compared": dict(self.skipped),
                 "alarms": TIMEOUTS["n"], "alarm_seconds": round(TIMEOUTS["spent"], 1)}
 
     def tables(self):
@@ -1495,7 +1564,7 @@ class C13(Check):
             with warnings.catch_warnings():
                 warnings.simplefilter("ignore")
                 try:
-                    return with_timeout(3.0, lambda: self._real_load(lines, files, mode, pre))
+                    return with_timeout(3.0, lambda: self._real_load(lines, files, mode, pre), floor=1.0)
                 except Timeout:
                     return {"err": "fuel"}
         finally:
@@ -1617,7 +1686,8 @@ class C13(Check):
     def model_compare(self, case, expected, answer):
         if case["kind"] == "load":
             if expected["loaded"].get("err") == "re.error":
-                return None      # compiling the expressions is outside the loader model
+                self.note_skip("loader case: re rejects an expression (compiling is outside the loader model)")
+                return None
             got = prune_loaded(answer, case["pre"]) if isinstance(answer, dict) else answer
             return None if got == expected["loaded"] else {"expected_from_impl": expected["loaded"], "model": got}
         if case["kind"] == "render":
@@ -1625,6 +1695,7 @@ class C13(Check):
                 return {"renderer": "harness and Lean renderers differ", "expected_from_impl": expected["lines"],
                         "model": answer.get("lines") if isinstance(answer, dict) else answer}
             if expected["loaded"].get("err") == "re.error":
+                self.note_skip("render case: re rejects an expression")
                 return None
             got = prune_loaded(answer.get("loaded"), case["pre"])
             return None if got == expected["loaded"] else {"expected_from_impl": expected["loaded"], "model": got}
@@ -1649,6 +1720,8 @@ class C13(Check):
             return None
         if not isinstance(answer, dict) or "runs" not in answer:
             return {"expected_from_impl": expected, "model": answer}
+        if len(answer.get("load", [])) != len(expected["load"]):
+            return {"load_entries": len(expected["load"]), "model_entries": len(answer.get("load", []))}
         for i, (e, a) in enumerate(zip(expected["load"], answer.get("load", []))):
             if e is not None and e != a:
                 return {"rule": i, "expected_from_impl": e, "model": a}
@@ -1657,6 +1730,7 @@ class C13(Check):
         for i, (e, a) in enumerate(zip(expected["runs"], answer["runs"])):
             if "err" in e:
                 if e["err"] == "timeout" and a.get("err") in ("fuel", "engine"):
+                    self.note_skip("run: the real code hit the alarm (no fixpoint), model out of fuel / engine data")
                     continue        # no fixpoint: the real code does not terminate, the engine table stops there
                 return {"input": i, "expected_from_impl": e, "model": a}
             got = {k: a.get(k) for k in e}
